@@ -10,7 +10,7 @@ Open Scope N_scope.
    incl. heads that declare trailers), body segmentation, client version and Connection option,
    whenever the proxy keeps the connection (and for the CONNECT reply). *)
 Theorem T02_roundtrip : forall closing q r order rest,
-  wf_resp r order = true ->
+  wf_resp q r order = true ->
   conn_survives closing q r = true \/ is_connect_ok q r = true ->
   client_parse (client11 q) (q_method q) (resp_wire closing q r order ++ rest) =
   Some (observable closing q r order, rest).
@@ -20,7 +20,7 @@ Print Assumptions T02_roundtrip.
 (* ... and when the proxy closes the connection after the response (close-delimited body,
    Connection: close, HTTP/1.0 client) the client reading to the end gets exactly that response. *)
 Theorem T02_roundtrip_close : forall closing q r order,
-  wf_resp r order = true -> write_ok closing q r = true ->
+  wf_resp q r order = true -> write_ok closing q r = true ->
   conn_survives closing q r = false -> is_connect_ok q r = false ->
   client_parse (client11 q) (q_method q) (resp_wire closing q r order) = Some (observable closing q r order, []).
 Proof. exact (roundtrip_close ob_header_only_is_rfc ob_header_only_writer_shape ob_frames_unknown_length). Qed.
